@@ -261,6 +261,8 @@ pub struct GenOps {
     /// no `save` operations (the binary cross-check saves once at the end); also no TAB
     /// characters, which a terminal would turn into a completion request
     no_saves: bool,
+    /// what the step just generated would define (fork phase: fed to the sibling's generator)
+    last_defines: Vec<(String, &'static str)>,
 }
 
 impl GenOps {
@@ -412,6 +414,7 @@ impl OpSource for GenOps {
         let gi = g.next_input();
         let step = Step::from_gen(&gi);
         self.last_session = who.to_string();
+        self.last_defines = gi.defines.clone();
         Some(Op::Line {
             session: who.to_string(),
             step,
@@ -426,6 +429,25 @@ impl OpSource for GenOps {
                 }
             }
             _ => self.gen_p.feedback(ok),
+        }
+        if self.forked && ok && self.dropped.is_none() {
+            // collisions: the sibling session is made to define the SAME names, differently
+            // (a copied session must not see, or be influenced by, its sibling's definitions)
+            let defs = std::mem::take(&mut self.last_defines);
+            let other = if session == "C" {
+                Some(&mut self.gen_p)
+            } else {
+                self.gen_c.as_mut()
+            };
+            if let Some(o) = other {
+                for d in defs {
+                    o.recent_failed.push(d);
+                }
+                if o.recent_failed.len() > 8 {
+                    let cut = o.recent_failed.len() - 8;
+                    o.recent_failed.drain(..cut);
+                }
+            }
         }
     }
 
@@ -579,8 +601,10 @@ fn work_dir() -> String {
     d
 }
 
-pub fn exec_ops(w: &mut SessWorker, light: bool, src: &mut dyn OpSource, res: &mut ExecResult) -> (Vec<Op>, Vec<usize>) {
-    let base = match w.base(light) {
+pub fn exec_ops(w: &mut SessWorker, light: bool, fork_run: bool, src: &mut dyn OpSource, res: &mut ExecResult) -> (Vec<Op>, Vec<usize>) {
+    // Fork runs test that a copied session is independent of its original, so nothing in them
+    // may be a copy of a context that other runs also copy: their base is built from scratch.
+    let base = match if fork_run { let _ = w.base(light); w.fresh_base(light) } else { w.base(light) } {
         Ok(b) => b,
         Err(e) => {
             res.harness_error = Some(e);
@@ -610,6 +634,7 @@ pub fn exec_ops(w: &mut SessWorker, light: bool, src: &mut dyn OpSource, res: &m
     let mut c_suffix: Vec<Elem> = vec![];
     let mut p_final: Option<Sess> = None;
     let mut c_final: Option<Sess> = None;
+    let mut panic_abort = false;
 
     loop {
         let names_fn = || -> Vec<String> {
@@ -667,14 +692,54 @@ pub fn exec_ops(w: &mut SessWorker, light: bool, src: &mut dyn OpSource, res: &m
                 src.feedback(session, out.is_ok());
                 if let OutKind::Panic(p) = &out.kind {
                     res.sut_panics.push(p.clone());
-                    // a panicked context must not be used any more
-                    res.fail(
-                        "session-panicked",
-                        format!(
-                            "line `{}` panicked in an incremental session: {p}",
-                            step.text.replace('\n', " ⏎ ")
-                        ),
-                    );
+                    // A panicked context must not be used any more, so the run ends here. Crash
+                    // freedom as such is not C07's subject (C08); what C07 asks is whether the
+                    // modes agree: replay the successful lines so far plus this line in a
+                    // fresh session fed line by line. If it panics there too, the panic is a
+                    // property of the line, not of the execution mode.
+                    let mut fresh = if forked {
+                        match w.fresh_base(light) {
+                            Ok(f) => f,
+                            Err(e) => {
+                                res.harness_error = Some(e);
+                                break;
+                            }
+                        }
+                    } else {
+                        Sess { ctx: base.ctx.clone() }
+                    };
+                    let side: &Vec<Elem> = if !forked {
+                        &hist
+                    } else if session == "C" {
+                        &c_suffix
+                    } else {
+                        &p_suffix
+                    };
+                    let mut consistent = true;
+                    for e in hist.iter().chain(if forked { side.iter() } else { [].iter() }) {
+                        let o = fresh.submit(&e.text);
+                        if o.is_panic() {
+                            consistent = false;
+                            break;
+                        }
+                    }
+                    let o2 = if consistent { Some(fresh.submit(&step.text)) } else { None };
+                    match o2 {
+                        Some(o2) if o2.kind == out.kind => {
+                            res.bump("probe.line_panics_in_every_mode");
+                            panic_abort = true;
+                        }
+                        other => {
+                            res.fail(
+                                "mode-diverged",
+                                format!(
+                                    "line `{}` panicked ({p}) in the session with failing lines/commands/sibling in between, but a fresh session fed only the successful lines gives {}",
+                                    step.text.replace('\n', " ⏎ "),
+                                    other.map(|o| o.full_text()).unwrap_or_else(|| "a panic earlier".into())
+                                ),
+                            );
+                        }
+                    }
                     break;
                 }
                 if out.is_ok() {
@@ -918,7 +983,7 @@ pub fn exec_ops(w: &mut SessWorker, light: bool, src: &mut dyn OpSource, res: &m
     }
 
     let mut cuts = vec![];
-    if res.violation.is_none() && res.harness_error.is_none() {
+    if res.violation.is_none() && res.harness_error.is_none() && !panic_abort {
         let live = if forked {
             None
         } else {
@@ -1001,7 +1066,18 @@ pub fn exec_ops(w: &mut SessWorker, light: bool, src: &mut dyn OpSource, res: &m
             }
             for (name, live, suffix) in [("parent", &p_final, &p_suffix), ("clone", &c_final, &c_suffix)] {
                 let Some(live) = live else { continue };
-                let mut scratch = m1.clone();
+                // the reference never had a sibling and is not a clone of anything: it is built
+                // from scratch and fed the prefix and this side's own lines
+                let mut scratch = match w.fresh_base(light) {
+                    Ok(f) => f,
+                    Err(e) => {
+                        res.harness_error = Some(e);
+                        break;
+                    }
+                };
+                for e in hist.iter() {
+                    let _ = scratch.submit(&e.text);
+                }
                 res.bump("checks.fork_side");
                 for (i, e) in suffix.iter().enumerate() {
                     let o = scratch.submit(&e.text);
@@ -1255,11 +1331,12 @@ impl Prop for C07 {
                 decorate: true,
                 after_info: false,
                 no_saves: true,
+                last_defines: vec![],
                 rng,
             };
             // generate the lines against an in-process session (feedback), then cross-check
             let mut res = ExecResult::default();
-            let (ops, _) = exec_ops(w, false, &mut src, &mut res);
+            let (ops, _) = exec_ops(w, false, false, &mut src, &mut res);
             let trace = json!({
                 "format": 1,
                 "property": "C07",
@@ -1308,6 +1385,7 @@ impl Prop for C07 {
             decorate: !fork_mode,
             after_info: false,
             no_saves: false,
+            last_defines: vec![],
             rng,
         };
         let mut res = ExecResult::default();
@@ -1318,7 +1396,7 @@ impl Prop for C07 {
         } else {
             "runs.repl-fault-free"
         });
-        let (ops, cuts) = exec_ops(w, light, &mut src, &mut res);
+        let (ops, cuts) = exec_ops(w, light, fork_mode, &mut src, &mut res);
         let trace = json!({
             "format": 1,
             "property": "C07",
@@ -1349,7 +1427,8 @@ impl Prop for C07 {
             _ if trace["config"]["faults"].as_bool().unwrap_or(true) => "runs.repl-with-failing-traffic",
             _ => "runs.repl-fault-free",
         });
-        exec_ops(w, light, &mut src, &mut res);
+        let fork_run = trace["config"]["mode"].as_str() == Some("fork");
+        exec_ops(w, light, fork_run, &mut src, &mut res);
         res
     }
     fn shrink(&self, trace: &Value) -> Vec<Value> {
